@@ -94,6 +94,7 @@ def generate(check, rng, tier, run_index):
             o['bits'] = rng.below(1 << 40) | 7
         elif k == 'nudge':
             o['seed'] = rng.below(1 << 20)
+            o['how'] = rng.choice(['inplace', 'inplace', 'augmented', 'reassign_same'])
         elif k in ('set_xyz', 'set_time'):
             o['seed'] = rng.below(1 << 30)
         elif k == 'set_cell':
@@ -536,6 +537,16 @@ def execute(check, case, workdir):
             if (V[:, 0, 0] <= 0).any() or (V[:, 1, 1] <= 0).any():
                 viol(opname, 'orientation_sign', {'vectors': V[0].tolist()}, stepno, flags)
                 return
+            # the other public description of the same cell: extents and tilt components (mdtraj.utils.lengths_and_angles_to_tilt_factors,
+            # what the HOOMD/LAMMPS style writers use) must be the components of these very vectors
+            from mdtraj.utils import lengths_and_angles_to_tilt_factors as _tilt
+            tf = np.asarray(_tilt(L[:, 0], L[:, 1], L[:, 2], A[:, 0], A[:, 1], A[:, 2]), dtype=np.float64)
+            want_tf = np.array([V[:, 0, 0], V[:, 1, 1], V[:, 2, 2], V[:, 1, 0], V[:, 2, 0], V[:, 2, 1]])
+            if tf.shape != want_tf.shape or not np.allclose(tf, want_tf, rtol=2e-4, atol=3e-5 * scale):
+                k0 = int(np.argmax(np.abs(tf - want_tf).max(0))) if tf.shape == want_tf.shape else 0
+                viol(opname, 'tilt_factors', {'from_helper': tf[:, k0].tolist() if tf.ndim == 2 else None, 'from_vectors': want_tf[:, k0].tolist(),
+                                              'lengths': L[k0].tolist(), 'angles': A[k0].tolist()}, stepno, flags)
+                return
             det = np.einsum('ij,ij->i', V[:, 0], np.cross(V[:, 1], V[:, 2]))
             if (det <= 0).any():
                 viol(opname, 'volume_not_positive', {'det': det.tolist()[:3]}, stepno, flags)
@@ -879,11 +890,26 @@ def execute(check, case, workdir):
                 # must really centre.
                 r = np.random.RandomState(op['seed'])
                 shift = r.normal(scale=0.5, size=(m.n, 1, 3)).astype(np.float32)
-                t.xyz[...] += shift
+                how = op.get('how', 'inplace')
+                had_cache = cache_state(m) == 'set'
+                if how == 'augmented':
+                    t.xyz += shift                      # goes through the property setter -- with the very array the object already holds
+                elif how == 'reassign_same':
+                    a_ = t.xyz
+                    a_[...] += shift
+                    t.xyz = a_
+                else:
+                    t.xyz[...] += shift
                 m.xyz = np.array(t.xyz, dtype=np.float32)
-                if cache_state(m) == 'set':
-                    m.dirty = True
-                    res.probe('in_place_write_with_cached_traces')
+                if how == 'inplace':
+                    if had_cache:
+                        m.dirty = True
+                        res.probe('in_place_write_with_cached_traces')
+                else:
+                    # an assignment through the setter: from here on the object knows, and the shortcut is judged again
+                    m.dirty = False
+                    if had_cache:
+                        res.probe('setter_given_its_own_array_with_cached_traces')
                 res.log.append('%d nudge m%d' % (stepno, m.id))
                 res.trace.append(('nudge', cache_state(m)))
             elif kind == 'set_time':
